@@ -8,6 +8,8 @@
     read <0|1> :line :line …         -> ok <state> | err:<class>      (append flag first)
     flatten :style <a|none> <b|none> -> ok <table> | err:<class>
     scan :line …                     -> headers/footers of the single pass (evidence/debugging)
+    state                            -> ok <state>
+    droprow <j>                      -> ok | err:index                  (the caller drops the last row of record j in place)
     sopen <id> :line …               -> ok                              (an open binary stream, position 0; `new` keeps it)
     sseek <id> <k> <c>               -> ok                              (the caller moves it: k lines + c characters)
     sread <id> <0|1>                 -> ok <state> @<k>,<c> | err:<class>   (read(stream, append); position afterwards)
@@ -114,6 +116,16 @@ def handleC19 (w : World) (toks : List String) : World × String :=
       | .ok t => (w, "ok " ++ " ".intercalate (showTable t))
       | .error e => (w, err e.name)
     | _, _, _ => (w, err "format")
+  | ["state"] => (w, "ok " ++ showState st)
+  | ["droprow", j] =>
+    -- the caller edits a record he was handed: `log.simulations[j].thermo.drop(<last row label>, inplace=True)`
+    match j.toNat? with
+    | some j =>
+      if j < st.sims.length then
+        ({ w with log := { st with sims := st.sims.modify j (fun s =>
+            { s with thermo := { s.thermo with rows := s.thermo.rows.dropLast } }) } }, "ok")
+      else (w, err "index")
+    | none => (w, err "format")
   | "scan" :: rest =>
     match rest.mapM decodeTok with
     | some lines =>
